@@ -25,6 +25,9 @@ var bodies = [][]byte{
 	[]byte("x"),
 }
 
+// error texts of failing producers: empty, shorter than a reply code, looking like a reply
+var producerTexts = []string{"", "4", "5", "45", "2", "451 4.3.0 looks like a reply", "x"}
+
 var negDev = []string{"451:4.3.0_try_again_later", "554:5.7.1_rejected_by_policy", "drop"}
 var oddDev = []string{"251:2.1.5_will_forward", "252:2.0.0_cannot_verify", "250:2.0.0_custom_ok", "354:go_ahead", "220:hello", "550", "421:4.3.2_shutting_down"}
 
@@ -114,6 +117,9 @@ func randomCase(rng *rand.Rand, prop string) *Case {
 			c.Msgs[i].Kind, c.Msgs[i].K = 'a', rng.Intn(200)
 		case 3:
 			c.Msgs[i].Kind = 'A'
+		}
+		if (c.Msgs[i].Kind == 'w' || c.Msgs[i].Kind == 'a') && rng.Intn(3) == 0 {
+			c.Msgs[i].ErrText, c.Msgs[i].HasErrText = producerTexts[rng.Intn(len(producerTexts))], true
 		}
 		if rng.Intn(25) == 0 {
 			c.Msgs[i].From = ""
@@ -264,6 +270,21 @@ func generate(r *hx.Run, prop string) []*Case {
 			c.Msgs[0].Body, c.Msgs[1].Body = bodies[1], bodies[3]
 			add(c)
 		})
+		// producer errors with empty / one- and two-byte / reply-like texts, body producer and attachment producer,
+		// in the first and in the second message, with and without ENHANCEDSTATUSCODES
+		for _, txt := range producerTexts {
+			for _, kind := range []byte{'w', 'a'} {
+				for pos := 0; pos < 2; pos++ {
+					for _, enc := range []byte{'q', 'n'} {
+						for _, caps := range [][]string{allCaps, allCaps[:1]} {
+							c := base(2, 1, enc, caps, nil)
+							c.Msgs[pos].Kind, c.Msgs[pos].K, c.Msgs[pos].ErrText, c.Msgs[pos].HasErrText = kind, 3, txt, true
+							add(c)
+						}
+					}
+				}
+			}
+		}
 		// failure in the second / third message, every failure offset class
 		for k := 0; k <= 30; k += 3 {
 			for _, kind := range []byte{'w', 'a'} {
@@ -275,6 +296,14 @@ func generate(r *hx.Run, prop string) []*Case {
 			}
 		}
 	case "C20":
+		// producer errors with unusual texts (the classifiers work on the text, also of errors that are no replies)
+		for _, txt := range producerTexts {
+			for _, kind := range []byte{'w', 'a'} {
+				c := base(2, 1, 'q', allCaps, nil)
+				c.Msgs[0].Kind, c.Msgs[0].K, c.Msgs[0].ErrText, c.Msgs[0].HasErrText = kind, 5, txt, true
+				add(c)
+			}
+		}
 		// every code 400..599 x every text kind, at the command positions of a 2-message x 2-recipient batch
 		// positions (all-OK): 0 greeting 1 EHLO 2 NOOP | 3 MAIL 4 RCPT 5 RCPT 6 DATA 7 EOD 8 NOOP 9 RSET | 10 MAIL 11 RCPT 12 RCPT 13 DATA 14 EOD 15 NOOP 16 RSET | 17 QUIT
 		poss := []int{3, 4, 5, 6, 7, 9, 10, 11, 12, 13, 14, 16}
